@@ -132,6 +132,23 @@ P('C07',
   thorough=dict(cases=3000000, max_size=6000, max_seconds=1500, fuzz=dict(seconds=300, jobs=12, max_len=6000)),
   )
 
+P('C15',
+  technique='property-based testing: harness-side IDL format A and Page Format Clear transmitters (EN 300 708) with generated framing options, payload runs and fault injection; delivery sequences compared with what was sent',
+  rule='IDL-A: 2-30 packets for one (channel, address) with generated RI/CI/DL options, address length 0-6, dependent bit, explicit or implicit '
+       'continuity indicator, payload runs of 0x00/0xFF with dummy bytes, foreign channels / addresses / format B / ordinary Teletext packets, '
+       'dropped, CRC-damaged and Hamming-damaged packets. PFC: 1-12 blocks of 0-2047 bytes over pages of 1-25 packets (block pointer, separators, '
+       'fillers, structure headers split at any position), foreign pages / streams / magazines, the same faults. Non-trivial: a run of >= 8 equal '
+       '0x00/0xFF bytes, or a block boundary in the last bytes of a packet, or a fault; distinct = hash of consumed choices.',
+  level_text='Generated-input search with an explicit oracle: IDL deliveries must equal the payloads of the intact packets of the selected '
+             'channel/address in order, VBI_IDL_DATA_LOST exactly on the first delivery after lost or damaged packets, VBI_IDL_DEPENDENT equal to the '
+             'transmitted bit, no other flag bits; PFC deliveries must be an in-order subsequence of the sent blocks with exact content that '
+             'contains every non-empty block transmitted wholly in undamaged pages; each packet is fed from an exactly 42 byte heap block (ASan). Sampling only.',
+  level_note='Trusted: the transmitters in props/C15.cc (CRC x^16+x^9+x^7+x^4+1 bitwise, dummy byte rule, PFC layout) as reading of EN 300 708. Not judged: whether the CI byte counts towards the 8 equal bytes, and a run whose eighth byte ends the packet (generator avoids both, counted); repeat-indicator retransmissions are not generated.',
+  design_ref='DESIGN.md section 2, C15',
+  quick=dict(cases=300000, max_size=5000, max_seconds=150),
+  thorough=dict(cases=8000000, max_size=5000, max_seconds=1500, fuzz=dict(seconds=240, jobs=8, max_len=5000)),
+  )
+
 NOT_YET = {}
 
 
